@@ -490,11 +490,17 @@ def run_case(case, seed):
         init_state = states[0]
         tags = {"grp": "hist", "cls": cell["cls"], "cell": cell["name"]}
         ncalls = 0
+        kept = []  # results already handed to the caller: they are the caller's arrays now and must never change again
         for step, pi in enumerate(case["hist"]):
             d0 = canon(vars(obj))
             ok, res, args_same = do_call(lib, obj, probs[pi])
             ncalls += 1
             got = (ok, canon_result(res, cell) if ok else repr(type(res)))
+            for (st0, res0, c0) in kept:
+                if canon_result(res0, cell) != c0:
+                    fails.append(fail("earlier_result_overwritten", f"history {case['hist']}: the value returned by call {st0} changed while call {step} ran (returned arrays alias internal buffers)", step=step, **tags))
+            if ok:
+                kept.append((step, res, got[1]))
             ref = _REF[(cell["id"], pi, 0)]
             if not args_same:
                 fails.append(fail("argument_mutated", f"call {step} (problem {pi}) modified its arguments", **tags))
@@ -517,6 +523,9 @@ def run_case(case, seed):
             ok, res, args_same = do_call(lib, obj, alt_problem(probs[pi]), reuse=do_call.last_args)
             ncalls += 1
             got = (ok, canon_result(res, cell) if ok else repr(type(res)))
+            for (st0, res0, c0) in kept:
+                if canon_result(res0, cell) != c0:
+                    fails.append(fail("earlier_result_overwritten", f"history {case['hist']}: the value returned by call {st0} changed during the final in-place call", **tags))
             if got != _REF[(cell["id"], pi, 1)]:
                 fails.append(fail("stale_result_after_inplace_update", f"history {case['hist']}: after overwriting the arguments of the last call in place, the result differs from a fresh {cell['cls']} on the new data", **tags))
             states.append(digest(canon(vars(obj))))
@@ -606,6 +615,18 @@ def run_case(case, seed):
             outs[style] = None
         else:
             outs[style] = json.loads(r.stdout.strip().splitlines()[-1])
+    # the per-process string-hash salt must not matter: the flat battery again under two other PYTHONHASHSEED values
+    for salt in ("1", "4242"):
+        env = dict(os.environ, PYTHONHASHSEED=salt)
+        r = subprocess.run([sys.executable, "-c", f"import sys; sys.path.insert(0, {os.path.dirname(os.path.dirname(os.path.abspath(__file__)))!r}); from checks.c14 import main_battery; main_battery('flat')"],
+                           capture_output=True, text=True, env=env, timeout=600)
+        if r.returncode != 0:
+            fails.append(fail("import_style_failed", f"flat, PYTHONHASHSEED={salt}: {r.stderr[-600:]}", style="flat"))
+        elif outs.get("flat"):
+            other = json.loads(r.stdout.strip().splitlines()[-1])
+            for (n1, ok1, d1), (n2, ok2, d2) in zip(outs["flat"], other):
+                if (ok1, d1) != (ok2, d2):
+                    fails.append(fail("depends_on_hash_salt", f"{n1}: PYTHONHASHSEED=0 gives ok={ok1} digest={d1}, PYTHONHASHSEED={salt} gives ok={ok2} digest={d2}", fn=n1))
     if outs.get("flat") and outs.get("package"):
         for (n1, ok1, d1), (n2, ok2, d2) in zip(outs["flat"], outs["package"]):
             if (ok1, d1) != (ok2, d2):
